@@ -333,3 +333,37 @@ pub fn small(k: usize) -> Vec<String> {
     out.dedup();
     out
 }
+
+/// Component counts for the length sweep: dense where fixed-size buffers and
+/// unrolled loops live, then around the powers of two up to 2048.
+pub fn length_sweep() -> Vec<usize> {
+    let mut v: Vec<usize> = (1..=70).collect();
+    v.extend([95, 96, 97, 100, 127, 128, 129, 255, 256, 257, 511, 512, 513, 1023, 1024, 1025, 2047, 2048, 2049]);
+    v
+}
+
+/// A version of exactly `k` components ("1.2.3..." - every number and every
+/// dot is one component), with each kind of token as its last one, and its
+/// neighbours of k-1 and k+1 components.  A parser or comparison that treats
+/// the n-th component specially (a fixed-size buffer, a cap, an unrolled
+/// loop) shows inside such a cluster and nowhere else.
+pub fn length_cluster(k: usize) -> Vec<String> {
+    let prefix = |n: usize| -> String {
+        let mut s = String::new();
+        for i in 0..n {
+            if i % 2 == 0 {
+                s.push_str(&((i / 2) % 9 + 1).to_string());
+            } else {
+                s.push('.');
+            }
+        }
+        s
+    };
+    let p = prefix(k);
+    let mut out = vec![p.clone(), prefix(k.saturating_sub(1)), prefix(k + 1)];
+    // after a number a further digit would merge with it: separate with a letter-free token
+    for suf in ["a", "b", "rc", "rc1", "alpha", "pl", "nb2", "nb3", ".", ".0", "_5", "a1", "anb2"] {
+        out.push(format!("{p}{suf}"));
+    }
+    out
+}
